@@ -55,7 +55,7 @@ def run(ctx):
     cases_dbg = {}
     samples = []
     i = 0
-    target = ctx.n(170, 3000)
+    target = ctx.n(400, 3000)
     tries = 0
     while i < target and tries < target * 3:
         tries += 1
